@@ -114,6 +114,7 @@ type Obligation struct {
 
 // Exec is the verification context for one function under contract.
 type Exec struct {
+	retainsSeen map[string]bool
 	p        *Program
 	decls    []string
 	declared map[string]bool
@@ -158,7 +159,7 @@ type Exec struct {
 
 func newExec(p *Program, fnKey string) *Exec {
 	return &Exec{p: p, declared: map[string]bool{}, fnKey: fnKey, fuel: 2, specApps: map[string]int{}, notes: map[string]bool{},
-		curBlock: -1, specAppBlk: map[string]int{}, trusted: map[string]bool{}}
+		curBlock: -1, specAppBlk: map[string]int{}, trusted: map[string]bool{}, retainsSeen: map[string]bool{}}
 }
 
 // relevant reports whether an assumption made in block a can matter for an obligation in block b:
